@@ -1071,8 +1071,8 @@ impl AvxVector256 for __m256 {
 
     #[inline(always)]
     unsafe fn load_partial1_complex(ptr: *const Complex<Self::ScalarType>) -> Self::HalfVector {
-        let data = _mm_load_sd(ptr as *const f64);
-        _mm_castpd_ps(data)
+        // Complex<f32> is only 4-byte aligned, so this must be an alignment-free 64-bit load (movq), not a load through *const f64
+        _mm_castsi128_ps(_mm_loadl_epi64(ptr as *const __m128i))
     }
     #[inline(always)]
     unsafe fn load_partial2_complex(ptr: *const Complex<Self::ScalarType>) -> Self::HalfVector {
@@ -1086,7 +1086,8 @@ impl AvxVector256 for __m256 {
     }
     #[inline(always)]
     unsafe fn store_partial1_complex(ptr: *mut Complex<Self::ScalarType>, data: Self::HalfVector) {
-        _mm_store_sd(ptr as *mut f64, _mm_castps_pd(data));
+        // alignment-free 64-bit store (movq)
+        _mm_storel_epi64(ptr as *mut __m128i, _mm_castps_si128(data));
     }
     #[inline(always)]
     unsafe fn store_partial2_complex(ptr: *mut Complex<Self::ScalarType>, data: Self::HalfVector) {
